@@ -99,6 +99,33 @@ __CPROVER_ensures(RET == NULL || (__CPROVER_is_fresh(RET, sizeof(cbor_item_t)) &
                                   (!(g_s.valid && g_k < length) || RET->data[g_k] == g_s.byte)))
 __CPROVER_ensures(RET == NULL || (g_live == OLD(g_live) + 2 && g_malloc_calls == OLD(g_malloc_calls) + 2 && g_last_req == length));
 
+/* ASSUMED contract on the libc dependency strlen (first NUL; "no NUL before it" through the ghost index g_j): the proof of
+ * cbor_build_string replaces the call by this contract, so no loop over the text remains and the length is unbounded.
+ * Listed in the evidence under functions_replaced_by_contract / assumed. */
+struct verif_cstr { _Bool valid; const char *base; size_t len; };
+extern struct verif_cstr g_cs;
+extern size_t g_j;
+size_t strlen(const char *s)
+__CPROVER_requires(g_cs.valid && s == g_cs.base)
+__CPROVER_assigns()
+__CPROVER_ensures(RET == g_cs.len);
+
+/* cbor_build_string: the text up to (not including) the first NUL, otherwise exactly cbor_build_stringn(val, strlen(val)).
+ * g_cs = ghost record of the C string set up by the harness: base, len with base[len] == 0 and base[g_j] != 0 for the
+ * arbitrary g_j < len (so len IS the first NUL for every g_j). */
+cbor_item_t *cbor_build_string(const char *val)
+__CPROVER_requires(ALLOC_MODEL_BOUND && g_cs.valid && val == g_cs.base && g_cs.len < VERIF_MAXOBJ && __CPROVER_r_ok(val, g_cs.len + 1))
+__CPROVER_requires(val[g_cs.len] == 0 && (g_j >= g_cs.len || val[g_j] != 0))
+__CPROVER_requires(!g_s.valid || g_k >= g_cs.len || (unsigned char)val[g_k] == g_s.byte)
+__CPROVER_assigns(ALLOC_GHOSTS, g_u)
+__CPROVER_ensures(g_realloc_calls == OLD(g_realloc_calls))
+__CPROVER_ensures(RET == NULL ==> (g_live == OLD(g_live) && g_refused))
+__CPROVER_ensures(RET == NULL || (__CPROVER_is_fresh(RET, sizeof(cbor_item_t)) && RET->refcount == 1 &&
+                                  RET->type == CBOR_TYPE_STRING && ST_META(RET).type == _CBOR_METADATA_DEFINITE &&
+                                  ST_META(RET).length == g_cs.len && __CPROVER_is_fresh(RET->data, g_cs.len) &&
+                                  (!(g_s.valid && g_k < g_cs.len) || RET->data[g_k] == g_s.byte)))
+__CPROVER_ensures(RET == NULL || (g_live == OLD(g_live) + 2 && g_malloc_calls == OLD(g_malloc_calls) + 2 && g_last_req == g_cs.len));
+
 cbor_item_t *cbor_build_stringn(const char *val, size_t length)
 __CPROVER_requires(ALLOC_MODEL_BOUND && length <= VERIF_MAXOBJ && (length == 0 || __CPROVER_r_ok(val, length)))
 __CPROVER_requires(!g_s.valid || g_k >= length || (unsigned char)val[g_k] == g_s.byte)
